@@ -42,6 +42,8 @@ def weight_factory(kind: str):
         return _softmax
     if kind == "exp":
         return _exp
+    if kind == "clamp01":
+        return lambda shape: Parameter.from_unary(SP.ClampParameter(shape, vmin=0.0, vmax=1.0), TensorParameter(*shape, initializer=NormalInitializer()))
     if kind == "default":
         return None
     raise ValueError(kind)
@@ -164,7 +166,12 @@ def build_hand(d: dict) -> Circuit:
     def add(layer, inputs=()):
         layers.append(layer)
         if inputs:
-            ins[layer] = list(inputs)
+            inputs = list(inputs)
+            # 'revins': order-sensitive layers (Kronecker, n-ary sums) list their inputs in the reverse of the
+            # order in which the input layers were created (and get folded)
+            if d.get("revins") and (isinstance(layer, SL.KroneckerLayer) or (isinstance(layer, SL.SumLayer) and len(inputs) > 1)):
+                inputs = inputs[::-1]
+            ins[layer] = inputs
         return layer
 
     vid = d.get("ids", [0, 1, 2, 3])
@@ -239,6 +246,14 @@ def build_hand(d: dict) -> Circuit:
         # multi-output circuit whose outputs are input layers of different variables
         a, b = add(inp(Scope([vid[0]]), K)), add(inp(Scope([vid[1]]), K))
         return Circuit(layers, ins, [b, a])
+    if name == "interleaved":
+        # input layers of two families in interleaved variable order, each followed by its own dense sum
+        kinds = d.get("inputs", ["gaussian", "cat-logits", "gaussian"])
+        xs = [add(input_factory(kd)(Scope([vid[i]]), K)) for i, kd in enumerate(kinds)]
+        ds = [add(S(K, K), [x_]) for x_ in xs]
+        h = add(SL.HadamardLayer(K, len(ds)), ds)
+        s = add(S(K, d.get("Ko", 1)), [h])
+        return Circuit(layers, ins, [s])
     if name == "mixed-inputs":
         # different input families with the same unit count (they fold apart / integrate differently)
         kinds = d.get("inputs", ["embedding", "cat-logits", "embedding"])
@@ -382,7 +397,9 @@ def apply_ops(sc: Circuit, ops: list, base_desc: dict | None = None) -> Circuit:
         elif name == "differentiate":
             cur = SF.differentiate(cur, order=op[1] if len(op) > 1 else 1)
         elif name == "evidence":
-            cur = SF.evidence(cur, {int(k): v for k, v in op[1].items()})
+            # a list of [variable, value] pairs keeps the ORDER in which the observations are given
+            obs_ = dict((int(k), v) for k, v in op[1]) if isinstance(op[1], list) else {int(k): v for k, v in op[1].items()}
+            cur = SF.evidence(cur, obs_)
         elif name == "conjugate":
             cur = SF.conjugate(cur)
         elif name == "concatenate":
